@@ -75,7 +75,7 @@ BOUNDS = {
                  'EMBEDDING (5,1)', 'modes': 'quick + SRQ16',
                  'pack lemma': 'lengths 1..13'},
 }
-REACH = {'const': ['rewritten'], 'pack': ['pack']}
+REACH = {'const': ['rewritten'], 'pack': ['pack'], 'written': ['written']}
 TT = S.TensorType
 F32 = z3.Float32()
 RNE = z3.RNE()
@@ -623,6 +623,65 @@ def job_pack(job):
                             f'lengths {job.args["lengths"]}'])
 
 
+def job_written(job):
+  """Concrete: the property speaks about the bytes of the OUTPUT model; the
+  symbolic runs stop at the captured model object.  Here the real serializer
+  writes it, in the ordinary and in the large-model form (hook), the file is
+  read back and every rewritten constant is decoded by the independent
+  decoder."""
+  import os as _os
+  from ai_edge_quantizer import quantizer as quantizer_lib
+  n, cands = 0, []
+  picks = [('FC', (3, 1), 'WO8sC'), ('FC', (5, 1), 'WO4sT'),
+           ('CONV', (2, 1, 1, 2), 'DRQ8C'), ('DW', (1, 1, 1, 3), 'WO8aC'),
+           ('EMBEDDING', (3, 1), 'WO8sC'), ('TCONV', (2, 1, 1, 1), 'SRQ8C'),
+           ('BMM', (1, 2, 3), 'WO8sC'), ('FC', (1, 3), 'FP16')]
+  allc = {(k, tuple(s_), r): rec for k, s_, r, rec in cases('thorough')}
+  from props import pipeline as PP_
+  extra = [(PP_.model_bytes_of(sk), rec, sk + '/' + rn) for sk, rn, rec in (
+      ('fc_fc', 'WO', [PP_.rule('.*', '*', 'WO')]),
+      ('chain_fc_tanh', 'a8w8', PP_.recipe_family(
+          PP_.model_bytes_of('chain_fc_tanh'), 'quick')[
+              'shipped:default_a8w8_recipe.json']),
+      ('two_subgraphs_independent', 'DRQ', [PP_.rule('.*', '*', 'DRQ')]))]
+  todo = [(build(k, s_), allc[(k, s_, r)], f'{k}{list(s_)}/{r}')
+          for k, s_, r in picks if (k, s_, r) in allc] + extra
+  for mb, recipe, what in todo:
+    inp = flatbuffer_utils.read_model_from_bytearray(bytearray(mb))
+    for large in (False, True):
+      n += 1
+      env = dict(_os.environ)
+      try:
+        if large:
+          _os.environ['AI_EDGE_QUANTIZER_VERIF'] = '1'
+          _os.environ['AI_EDGE_QUANTIZER_VERIF_LARGE_MODEL_THRESHOLD'] = '-1'
+        else:
+          _os.environ.pop('AI_EDGE_QUANTIZER_VERIF', None)
+        q = quantizer_lib.Quantizer(mb, copy.deepcopy(recipe))
+        qsvs = P.concrete_qsvs(inp, None) if q.need_calibration else None
+        with np.errstate(all='ignore'):
+          data = bytes(q.quantize(qsvs).quantized_model)
+        out = flatbuffer_utils.read_model_from_bytearray(bytearray(data))
+        pr = concrete_problems(inp, out)
+      except Exception as ex:  # pylint: disable=broad-except
+        pr = [f'{type(ex).__name__}: {ex}']
+      finally:
+        _os.environ.clear()
+        _os.environ.update(env)
+      if pr:
+        cands.append(Candidate('C05.written_model_decodes_to_the_constants', {
+            'written': True, 'what': what,
+            'form': 'large-model' if large else 'ordinary', 'problems': pr[:3]}))
+  st = {'paths': n, 'decisions': n, 'obligations': n,
+        'discharged': n - len(cands), 'solver_calls': 0, 'solver_time': 0.0,
+        'reached': {'written': n}}
+  for c in cands:
+    c.job = job.name
+  return JobResult(job.name, st, cands[:4], [], {}, samples=[
+      f'{n} written models (ordinary and large-model form) read back and '
+      'decoded'])
+
+
 def jobs(tier, seed):
   cs = [(k, list(s), r) for k, s, r, _ in cases(tier)]
   js = []
@@ -632,6 +691,7 @@ def jobs(tier, seed):
                   {'tier': tier, 'cases': cs[i:i + chunk]}))
   top = 9 if tier == 'quick' else 13
   js.append(Job('pack:lemma', job_pack, {'lengths': list(range(1, top + 1))}))
+  js.append(Job('written', job_written, {}))
   return js
 
 
@@ -641,6 +701,12 @@ def jobs(tier, seed):
 def replay(c):
   from ai_edge_quantizer import quantizer as quantizer_lib
   d = c['data']
+  if d.get('written'):
+    r = job_written(Job('written', job_written, {}))
+    pr = [f"{cc.data['what']} [{cc.data['form']}]: {cc.data['problems'][:2]}"
+          for cc in r.candidates]
+    return bool(pr), 'written model: ' + (
+        r.candidates[0].data['form'] if r.candidates else ''), str(pr[:2])
   stats = d.get('stats') or {}
   if 'pack_n' in d:
     n = d['pack_n']
